@@ -85,6 +85,87 @@ def disjoint_cases(ctx):
     return out
 
 
+# alphabets of the scale cases: code points beyond 127 / 255, just below 65 536 and beyond 65 535 (one character of the
+# transcription = one symbol = one logits row, whatever its code point; no surrogates, no combining marks)
+ALPHABETS = [("ascii", "abcdefgh"),
+             ("latin-1", "\u00e0\u00e9\u00ee\u00f5\u00fc\u00f1\u00e7\u00df"),
+             ("czech", "\u0159\u0161\u010d\u017e\u011b\u016f\u0165\u0148"),
+             ("cyrillic", "\u0430\u0431\u0432\u0433\u0434\u0435\u0436\u0437"),
+             ("cjk", "".join(chr(0x4e00 + 37 * i) for i in range(8))),
+             ("top of the BMP", "\uff21\uff22\uff23\uffe5\ufffd\uffee\uffdc\uff9f"),
+             ("gothic", "".join(chr(0x10330 + i) for i in range(8))),
+             ("first astral", "".join(chr(0x10000 + i) for i in range(8))),
+             ("mathematical", "".join(chr(0x1d538 + i) for i in (0, 1, 3, 4, 5, 6, 8, 9))),
+             ("emoji", "".join(chr(0x1f600 + i) for i in range(8))),
+             ("plane 16", "".join(chr(0x10fff0 + i) for i in range(8))),
+             ("ascii + gothic", "abcd" + "".join(chr(0x10330 + i) for i in range(4))),
+             ("czech + emoji", "\u0159\u0161\u010d\u017e" + "".join(chr(0x1f600 + i) for i in range(4)))]
+
+
+def _windows(line, w, ov):
+    parts, starts, start = [], [], 0
+    while True:
+        parts.append(line[start:start + w])
+        starts.append(start + 1)
+        if start + w >= len(line):
+            break
+        start += w - ov
+    return parts, starts
+
+
+def scale_cases(ctx):
+    """SCALE: the scope classes of the statement (true windows of one text, windows with noise in the overlap, unrelated
+    strings, empty parts anywhere, a part shorter than the overlap) in alphabets whose code points exceed 127 / 255 / 65 535,
+    surplus logit rows beyond 255 and beyond 65 535; a list of more than 255 parts merging to more than 1024 characters; two
+    parts of more than 255 characters that overlap in more than 255.  `line` / `starts` are recorded for every list cut from
+    one line; whether it still IS a list of windows (no noise, no inserted part) is decided by TLC (TrueWindows)."""
+    rng = random.Random(ctx.seed * 6007 + 1507)
+    out = []
+    for name, chars in ALPHABETS:
+        sym = S.ids_of(chars)
+        for i in range(10 if ctx.tier == "quick" else 40):
+            alpha = rng.sample(sym, rng.choice([2, 3, 4, len(sym)]))
+            line = [rng.choice(alpha) for _ in range(rng.randint(7, 16))]
+            w = rng.randint(4, 8)
+            ov = rng.randint(1, w // 2)                      # process_lines overlaps its windows by a quarter
+            parts, starts = _windows(line, w, ov)
+            what = i % 5
+            if what == 1 and len(parts) > 1:                 # recognition noise in an overlap
+                p = rng.randrange(1, len(parts))
+                j = rng.randrange(0, min(ov, len(parts[p])))
+                parts[p] = list(parts[p])
+                parts[p][j] = rng.choice([c for c in sym if c != parts[p][j]])
+            elif what == 2:                                  # an empty part anywhere
+                k = rng.randrange(0, len(parts) + 1)
+                parts.insert(k, [])
+                starts.insert(k, 1)
+            elif what == 3:                                  # the last window lies wholly inside the overlap
+                n = rng.randint(1, min(3, len(parts[-1])))
+                parts.append(parts[-1][-n:])
+                starts.append(len(line) - n + 1)
+            extra = [rng.choice([0, 1, 3]) for _ in parts]
+            if i == 0:
+                extra[0] = 300
+            elif i == 1:
+                extra[-1] = 66000
+            out.append({"kind": "scale", "alphabet": name, "line": line, "starts": starts, "parts": parts, "extra": extra})
+        for i in range(4 if ctx.tier == "quick" else 12):     # unrelated strings, one of them short
+            a = [rng.choice(sym) for _ in range(rng.randint(1, 6))]
+            b = [rng.choice(sym) for _ in range(rng.randint(1, 6))]
+            c = [rng.choice(sym[:2]) for _ in range(rng.randint(1, 3))]
+            ps = [[a, b], [a, b, c], [c, a, b], [a, c + c]][i % 4]
+            out.append({"kind": "scale", "alphabet": name, "line": [], "starts": [], "parts": ps, "extra": [0, 2, 1][:len(ps)]})
+    # sizes: distinct-looking text over 4000 CJK code points, so that the first exact overlap is the real one
+    many = [0x4e00 + rng.randrange(0, 4000) for _ in range(5 + 4 * 259)]
+    parts, starts = _windows(many, 5, 1)
+    out.append({"kind": "big", "alphabet": "cjk, %d parts" % len(parts), "line": many, "starts": starts, "parts": parts,
+                "extra": [j % 3 for j in range(len(parts))]})
+    long_line = [0x4e00 + rng.randrange(0, 4000) for _ in range(270 + 12)]
+    parts, starts = _windows(long_line, 270, 258)
+    out.append({"kind": "big", "alphabet": "cjk, overlap 258", "line": long_line, "starts": starts, "parts": parts, "extra": [0, 300]})
+    return out
+
+
 def engine_cases(ctx, n):
     """batches of 1-3 lines of 3-26 character cells (0 = blank cell: no character is recognised there)"""
     out = []
@@ -122,7 +203,8 @@ def describe(tr, prog):
     st = tr["steps"][prog]
     prev = tr["steps"][prog - 1]["text"] if prog else []
     return ("parts %s: merging part %d %r into %r with detected overlap %d gave %r with %d logits rows (%s): length / kept prefix / "
-            "kept suffix / row count / plain concatenation for overlap 0 violated" % (
+            "kept suffix / row count / plain concatenation for overlap 0 (or an overlap with nothing in common) / ends with the last part in "
+            "full for true windows of one text violated" % (
                 [S.text_of(p) for p in tr["parts"]], prog + 1, S.text_of(tr["parts"][prog]), S.text_of(prev), st["o"],
                 S.text_of([c for c in st["text"] if c != 99]), len(st["rows"]), st["outcome"]))
 
@@ -159,7 +241,10 @@ def run(ctx):
     ctx.assume("logits have at least as many rows as characters (surplus 0-3 rows)",
                "reading (DESIGN.md Appendix D): cut of the merged text <= ceil(o/2); 'ends with the last part' in full only when the overlap "
                "is exact, otherwise from floor(o/2) on; the statement is applied to every merge of (text so far, next part)",
-               "'detected overlap' = what find_best_overlap returns on (text so far, next part)")
+               "'detected overlap' = what find_best_overlap returns on (text so far, next part), a number of CHARACTERS of the transcription "
+               "(one character = one logits row, whatever its code point)",
+               "for true overlapping windows of one text without noise (TLC checks the recorded parts against the recorded line) 'ends "
+               "with the last part' is asserted in full after every merge; a detected overlap whose two sides have CER >= 1 is 'no overlap'")
     selftest = False
     for b in bounds(ctx):
         ctx.tlc("Stitch", constants=constants(b), invariants=INVS, properties=PROPS, workers=4, timeout=3000, label="Stitch " + b["name"])
@@ -180,6 +265,34 @@ def run(ctx):
     dj = disjoint_cases(ctx)
     judge(ctx, dj, S.run_cases(dj), {"Alphabet": {1, 2, 3, 4, 5}, "MaxLen": 9, "MaxParts": 9, "Extras": {0, 1}, "Legacy": False},
           "long parts over disjoint alphabets")
+    # scale: alphabets beyond 255 / 65 535 code points, more than 255 parts / characters / surplus rows (TLC judges the recorded
+    # integers with the same clauses + NoCommon + ends-in-full for what TLC itself recognises as true windows)
+    sc = scale_cases(ctx)
+    good = judge(ctx, sc, S.run_cases(sc), {"Alphabet": {1, 2, 3, 4, 5, 6, 7, 8}, "MaxLen": 9, "MaxParts": 9, "Extras": {0, 1, 3}, "Legacy": False},
+                 "scale (alphabets, sizes)")
+    astral = [t for t in good if t["line"] and len(t["parts"]) >= 2 and max(t["line"]) > 65535 and t["steps"][-1]["o"] > 0]
+    if astral:
+        ctx.sample({"config": "scale", "trace": astral[len(astral) // 2]}, limit=4)
+
+    # binding of the added clauses: two true windows with exact overlap r recorded as if 2 r had been detected and cut (length,
+    # kept prefix, kept suffix from floor(o/2) on and row count all agree with o = 2 r - only 'ends with the last part in
+    # full' / 'nothing in common' can reject it)
+    def doubled(tr):
+        a, b, r = tr["parts"][0], tr["parts"][1], tr["steps"][1]["o"]
+        st = tr["steps"][1]
+        st["o"] = 2 * r
+        st["text"] = a[:len(a) - r] + b[r:]
+        st["rows"] = [[1, j] for j in range(1, len(a) - r + 1)] + [[2, j] for j in range(r + 1, len(b) + 1)]
+        tr["final"] = {"text": list(st["text"]), "rows": [list(x) for x in st["rows"]], "outcome": "ok"}
+        return tr
+    pick = [t for t in astral if len(t["parts"]) == 2 and len(t["starts"]) == 2 and 1 <= t["steps"][1]["o"]
+            and 2 * t["steps"][1]["o"] <= min(len(t["parts"][0]), len(t["parts"][1]))
+            and t["parts"][0][-t["steps"][1]["o"]:] == t["parts"][1][:t["steps"][1]["o"]]
+            and (t["parts"][0][:-t["steps"][1]["o"]] + t["parts"][1][t["steps"][1]["o"]:])[-len(t["parts"][1]):] != t["parts"][1]]
+    if pick:
+        ctx.selftest_corrupt("Stitch_Trace", pick[0], doubled, constants={"Alphabet": {1, 2}, "MaxLen": 9, "MaxParts": 9, "Extras": {0}, "Legacy": False})
+    ctx.notes["scale_selftest"] = bool(pick)
+    ctx.notes["scale_cases"] = len(sc)
     wins = window_cases(ctx, 400 if ctx.tier == "quick" else 4000)
     traces = S.run_cases(wins)
     good = judge(ctx, wins, traces, {"Alphabet": {1, 2, 3, 4}, "MaxLen": 9, "MaxParts": 9, "Extras": {0, 1, 3}, "Legacy": False},
